@@ -2,7 +2,16 @@
    no comments, no directives, one pass), with the logical lines the parser is expected to produce.
      stmts ::= ε | Identifier `;` stmts | Identifier `:=` Identifier `;` stmts | `begin` stmts `end` `;` stmts
              | `repeat` stmts `until` Identifier `;` stmts | `try` stmts `finally` stmts `end` `;` stmts
-     prog  ::= `begin` stmts `end` `.` Eof *)
+             | `try` stmts `except` stmts `end` `;` stmts
+             | `if` Identifier `then` body `;` stmts | `if` Identifier `then` body `else` body `;` stmts
+             | `while` Identifier `do` body `;` stmts
+             | `case` Identifier `of` arms `end` `;` stmts | `case` Identifier `of` arms `else` stmts `end` `;` stmts
+     arms  ::= ε | Identifier `:` body `;` arms
+     body  ::= Identifier | Identifier `:=` Identifier | `begin` stmts `end`
+     prog  ::= `begin` stmts `end` `.` Eof
+   The expected lines are given at the level of one pass (`pexpected`: with the empty lines the parser
+   leaves behind and with parents as pass-line indices) and finalised as parse_file does (`finalize`:
+   empty lines dropped, parents renumbered). *)
 From PasfmtVerif Require Export Model.ParserGrammar.
 Local Open Scope nat_scope.
 
@@ -12,7 +21,20 @@ Inductive stmts : Set :=
   | SAssign (rest : stmts)                 (* Identifier := Identifier ; *)
   | SBlock (body rest : stmts)             (* begin body end ; *)
   | SRepeat (body rest : stmts)            (* repeat body until Identifier ; *)
-  | STry (body fin rest : stmts).          (* try body finally fin end ; *)
+  | STry (body fin rest : stmts)           (* try body finally fin end ; *)
+  | STryExcept (body exc rest : stmts)     (* try body except exc end ; *)
+  | SIf (c : tbody) (rest : stmts)         (* if Identifier then c ; *)
+  | SIfElse (c1 c2 : tbody) (rest : stmts) (* if Identifier then c1 else c2 ; *)
+  | SWhile (c : tbody) (rest : stmts)      (* while Identifier do c ; *)
+  | SCase (a : arms) (rest : stmts)        (* case Identifier of a end ; *)
+  | SCaseElse (a : arms) (e rest : stmts)  (* case Identifier of a else e end ; *)
+with tbody : Set :=
+  | TSimple                                (* Identifier *)
+  | TAssign                                (* Identifier := Identifier *)
+  | TBlock (b : stmts)                     (* begin b end *)
+with arms : Set :=
+  | ANil
+  | ACons (c : tbody) (rest : arms).       (* Identifier : c ; *)
 
 Definition tI := RTT_Identifier.
 Definition tSemi := RTT_Op OK_Semicolon.
@@ -24,6 +46,15 @@ Definition tRepeat := RTT_Keyword KK_Repeat.
 Definition tUntil := RTT_Keyword KK_Until.
 Definition tTry := RTT_Keyword KK_Try.
 Definition tFinally := RTT_Keyword KK_Finally.
+Definition tExcept := RTT_Keyword KK_Except.
+Definition tIf := RTT_Keyword KK_If.
+Definition tThen := RTT_Keyword KK_Then.
+Definition tElse := RTT_Keyword KK_Else.
+Definition tWhile := RTT_Keyword KK_While.
+Definition tDo := RTT_Keyword KK_Do.
+Definition tCase := RTT_Keyword KK_Case.
+Definition tOf := RTT_Keyword KK_Of.
+Definition tColon := RTT_Op OK_Colon.
 
 Fixpoint render (ss : stmts) : list RawTokenType :=
   match ss with
@@ -33,34 +64,137 @@ Fixpoint render (ss : stmts) : list RawTokenType :=
   | SBlock b r => tBegin :: render b ++ tEnd :: tSemi :: render r
   | SRepeat b r => tRepeat :: render b ++ tUntil :: tI :: tSemi :: render r
   | STry b c r => tTry :: render b ++ tFinally :: render c ++ tEnd :: tSemi :: render r
+  | STryExcept b c r => tTry :: render b ++ tExcept :: render c ++ tEnd :: tSemi :: render r
+  | SIf c r => tIf :: tI :: tThen :: render_body c ++ tSemi :: render r
+  | SIfElse c1 c2 r => tIf :: tI :: tThen :: render_body c1 ++ tElse :: render_body c2 ++ tSemi :: render r
+  | SWhile c r => tWhile :: tI :: tDo :: render_body c ++ tSemi :: render r
+  | SCase a r => tCase :: tI :: tOf :: render_arms a ++ tEnd :: tSemi :: render r
+  | SCaseElse a e r => tCase :: tI :: tOf :: render_arms a ++ tElse :: render e ++ tEnd :: tSemi :: render r
+  end
+with render_body (c : tbody) : list RawTokenType :=
+  match c with
+  | TSimple => [tI]
+  | TAssign => [tI; tAssign; tI]
+  | TBlock b => tBegin :: render b ++ [tEnd]
+  end
+with render_arms (a : arms) : list RawTokenType :=
+  match a with
+  | ANil => []
+  | ACons c r => tI :: tColon :: render_body c ++ tSemi :: render_arms r
   end.
 Definition render_prog (ss : stmts) : list RawTokenType := tBegin :: render ss ++ [tEnd; tDot; RTT_Eof].
 
 (* the level of a line at nesting depth d (the parser clamps to u16) *)
 Definition lvl (d : Z) : N := clamp_u16 d.
+Definition seqn (k m : nat) : list nat := seq k m.
 
-(* the non-empty logical lines of a statement list whose first token has index k, at depth d *)
-Fixpoint expected (d : Z) (k : nat) (ss : stmts) : list lline :=
+(* The lines of one pass for a statement list whose first token has index k and whose first line has
+   index li, at depth d, inside the child line context `par` (None = not inside a child line).
+   `semi` (for bodies): the index of the `;` that take_separators_on_last_line appends to the last line
+   of the body, if any. *)
+Fixpoint pexpected (par : option (nat * nat)) (d : Z) (k li : nat) (ss : stmts) : list lline :=
   match ss with
   | SNil => []
-  | SSimple r => mkLine LLT_Unknown (lvl d) None [k; k + 1] :: expected d (k + 2) r
-  | SAssign r => mkLine LLT_Assignment (lvl d) None [k; k + 1; k + 2; k + 3] :: expected d (k + 4) r
+  | SSimple r => mkLine LLT_Unknown (lvl d) par [k; k + 1] :: pexpected par d (k + 2) (li + 1) r
+  | SAssign r => mkLine LLT_Assignment (lvl d) par [k; k + 1; k + 2; k + 3] :: pexpected par d (k + 4) (li + 1) r
   | SBlock b r =>
+      let lb := pexpected par (d + 1) (k + 1) (li + 1) b in
       let e := k + 1 + length (render b) in
-      mkLine LLT_Unknown (lvl d) None [k] :: expected (d + 1) (k + 1) b
-      ++ mkLine LLT_Unknown (lvl d) None [e; e + 1] :: expected d (e + 2) r
+      mkLine LLT_Unknown (lvl d) par [k] :: lb
+      ++ mkLine LLT_Unknown (lvl d) par [e; e + 1] :: pexpected par d (e + 2) (li + 1 + length lb + 1) r
   | SRepeat b r =>
+      let lb := pexpected par (d + 1) (k + 1) (li + 1) b in
       let e := k + 1 + length (render b) in
-      mkLine LLT_Unknown (lvl d) None [k] :: expected (d + 1) (k + 1) b
-      ++ mkLine LLT_Unknown (lvl d) None [e; e + 1; e + 2] :: expected d (e + 3) r
-  | STry b c r =>
+      mkLine LLT_Unknown (lvl d) par [k] :: lb
+      ++ mkLine LLT_Unknown (lvl d) par [e; e + 1; e + 2] :: pexpected par d (e + 3) (li + 1 + length lb + 1) r
+  | STry b c r | STryExcept b c r =>
+      let lb := pexpected par (d + 1) (k + 1) (li + 1) b in
       let m := k + 1 + length (render b) in
+      let lc := pexpected par (d + 1) (m + 1) (li + 1 + length lb + 1) c in
       let e := m + 1 + length (render c) in
-      mkLine LLT_Unknown (lvl d) None [k] :: expected (d + 1) (k + 1) b
-      ++ mkLine LLT_Unknown (lvl d) None [m] :: expected (d + 1) (m + 1) c
-      ++ mkLine LLT_Unknown (lvl d) None [e; e + 1] :: expected d (e + 2) r
+      mkLine LLT_Unknown (lvl d) par [k] :: lb
+      ++ mkLine LLT_Unknown (lvl d) par [m] :: lc
+      ++ mkLine LLT_Unknown (lvl d) par [e; e + 1] :: pexpected par d (e + 2) (li + 1 + length lb + 1 + length lc + 1) r
+  | SIf c r =>
+      (* header line li = [if x then], finished after its child lines *)
+      let e := k + 3 + length (render_body c) in                      (* the `;` *)
+      let lc := pexpected_body (Some (li, k + 2)) (k + 3) (li + 1) (Some e) c in
+      mkLine LLT_Unknown (lvl d) par [k; k + 1; k + 2] :: lc ++ pexpected par d (e + 1) (li + 1 + length lc) r
+  | SIfElse c1 c2 r =>
+      let el := k + 3 + length (render_body c1) in                    (* the `else` *)
+      let e := el + 1 + length (render_body c2) in                    (* the `;` *)
+      let l1 := pexpected_body (Some (li, k + 2)) (k + 3) (li + 1) None c1 in
+      let l2 := pexpected_body (Some (li, el)) (el + 1) (li + 1 + length l1) (Some e) c2 in
+      mkLine LLT_Unknown (lvl d) par [k; k + 1; k + 2; el] :: l1 ++ l2 ++ pexpected par d (e + 1) (li + 1 + length l1 + length l2) r
+  | SWhile c r =>
+      let e := k + 3 + length (render_body c) in
+      let lc := pexpected_body (Some (li, k + 2)) (k + 3) (li + 1) (Some e) c in
+      mkLine LLT_Unknown (lvl d) par [k; k + 1; k + 2] :: lc ++ pexpected par d (e + 1) (li + 1 + length lc) r
+  | SCase a r =>
+      (* header line [case x of]; then the arms (see arms_lines); `end ;` makes one line at the level of the header *)
+      mkLine LLT_CaseHeader (lvl d) par [k; k + 1; k + 2]
+      :: arms_lines par d (k + 3) (li + 1) a (fun _ => [])
+           (fun k' li' pl => mkLine LLT_Unknown (lvl d) par [k'; k' + 1] :: pl ++ pexpected par d (k' + 2) (li' + 1 + length pl) r)
+  | SCaseElse a e r =>
+      mkLine LLT_CaseHeader (lvl d) par [k; k + 1; k + 2]
+      :: arms_lines par d (k + 3) (li + 1) a (fun _ => [])
+           (fun k' li' pl =>
+              let le := pexpected par (d + 1) (k' + 1) (li' + 1 + length pl) e in
+              let ke := k' + 1 + length (render e) in
+              mkLine LLT_Unknown (lvl d) par [k'] :: pl ++ le
+              ++ mkLine LLT_Unknown (lvl d) par [ke; ke + 1] :: pexpected par d (ke + 2) (li' + 1 + length pl + length le + 1) r)
+  end
+(* the child lines of a body (parent p, levels counted from the parent), followed by the empty line the
+   parser leaves behind *)
+with pexpected_body (p : option (nat * nat)) (k li : nat) (semi : option nat) (c : tbody) : list lline :=
+  let sm := match semi with Some e => [e] | None => [] end in
+  match c with
+  | TSimple => [mkLine LLT_Unknown (lvl 1) p (k :: sm); mkLine LLT_Unknown (lvl 1) None []]
+  | TAssign => [mkLine LLT_Assignment (lvl 1) p ([k; k + 1; k + 2] ++ sm); mkLine LLT_Unknown (lvl 1) None []]
+  | TBlock b =>
+      let lb := pexpected p 2 (k + 1) (li + 1) b in
+      let e := k + 1 + length (render b) in
+      mkLine LLT_Unknown (lvl 1) p [k] :: lb ++ [mkLine LLT_Unknown (lvl 1) p (e :: sm); mkLine LLT_Unknown (lvl 1) None []]
+  end
+(* The arms of a case statement from token k on, the first arm line having index li.  The parser finishes
+   the arm line `Identifier :` BEFORE it opens the child line context of the arm's body, so the line that
+   follows an arm line is the NEXT arm line (or the `end`/`else` line), and the child lines of the arm come
+   after that one: `pend i` are the child lines still owed by the previous arm (placed at index i),
+   `tail k' li' pl` the lines from the `end`/`else` line (token k', index li') on, with the child lines pl
+   of the last arm placed after that line. *)
+with arms_lines (par : option (nat * nat)) (d : Z) (k li : nat) (a : arms) (pend : nat -> list lline)
+                (tail : nat -> nat -> list lline -> list lline) : list lline :=
+  match a with
+  | ANil => tail k li (pend (li + 1))
+  | ACons c a' =>
+      let e := k + 2 + length (render_body c) in                        (* the `;` *)
+      mkLine LLT_CaseArm (lvl (d + 1)) par [k; k + 1] :: pend (li + 1)
+      ++ arms_lines par d (e + 1) (li + 1 + length (pend (li + 1))) a'
+           (fun i => pexpected_body (Some (li, k + 1)) (k + 2) i (Some e) c) tail
   end.
-Definition expected_prog (ss : stmts) : list lline :=
+Definition pexpected_prog (ss : stmts) : list lline :=
+  let lb := pexpected None 1 1 1 ss in
   let e := 1 + length (render ss) in
-  mkLine LLT_Unknown 0%N None [0] :: expected 1 1 ss
+  mkLine LLT_Unknown 0%N None [0] :: lb
   ++ [mkLine LLT_Unknown 0%N None [e; e + 1]; mkLine LLT_Eof 0%N None [e + 2]].
+
+(* parse_file's consolidation on lines without a shared token: empty lines are dropped and the line
+   index of every parent becomes the number of non-empty lines before it *)
+Definition nonempty_line (l : lline) : bool := match ll_toks l with [] => false | _ :: _ => true end.
+Definition finalize (pl : list lline) : list lline :=
+  map (fun l => mkLine (ll_type l) (ll_level l)
+                  (match ll_parent l with
+                   | Some (i, t) => Some (length (filter nonempty_line (firstn i pl)), t)
+                   | None => None end) (ll_toks l))
+      (filter nonempty_line pl).
+Definition expected_prog (ss : stmts) : list lline := finalize (pexpected_prog ss).
+
+(* programs without `if`/`while` (no child lines) *)
+Fixpoint child_free (ss : stmts) : bool :=
+  match ss with
+  | SNil => true
+  | SSimple r | SAssign r => child_free r
+  | SBlock b r | SRepeat b r => child_free b && child_free r
+  | STry b c r | STryExcept b c r => child_free b && child_free c && child_free r
+  | SIf _ _ | SIfElse _ _ _ | SWhile _ _ | SCase _ _ | SCaseElse _ _ _ => false
+  end.
